@@ -11,6 +11,9 @@ GAPWORD = u"the"
 UNIT = 65536
 
 TEXT_FIELDS = ("body", "title")
+# a field that is not scorable (no field length; length-based weightings score its terms by the posting weight);
+# only directed generators put words there, never a gap word or a positional query
+KW_FIELDS = ("tags",)
 NUM_FIELDS = ("num",)
 
 
@@ -33,6 +36,7 @@ def make_schema():
         body=fields.TEXT(analyzer=ana, phrase=True, stored=False),
         title=fields.TEXT(analyzer=ana2, phrase=True, stored=False),
         num=fields.NUMERIC(int, bits=32, signed=True, stored=True),
+        tags=fields.KEYWORD(stored=False),
     )
 
 
@@ -83,7 +87,7 @@ class World(object):
             for k in step[1]:
                 d = self.adocs[k]
                 kw = {"key": k}
-                for f in TEXT_FIELDS:
+                for f in TEXT_FIELDS + KW_FIELDS:
                     toks = d["t"].get(f)
                     if toks:
                         kw[f] = tokens_text(toks)
@@ -112,7 +116,7 @@ class World(object):
             k = reader.stored_fields(dn)["key"]
             d = self.adocs[k]
             docs.append({"live": not reader.is_deleted(dn), "seg": sum(1 for b in bounds if b <= dn),
-                         "t": {f: d["t"].get(f, []) for f in TEXT_FIELDS},
+                         "t": {f: d["t"].get(f, []) for f in TEXT_FIELDS + KW_FIELDS if f in TEXT_FIELDS or d["t"].get(f)},
                          "n": {f: d["n"].get(f, []) for f in NUM_FIELDS},
                          "b4": d.get("b4", 4), "key": k})
         return {"docs": docs}
